@@ -239,6 +239,9 @@ def check(run):
                     if isinstance(v, ast.Call) and isinstance(v.func, ast.Name) and v.func.id in ("set", "frozenset", "list") and v.args:
                         v = v.args[0]
                     v = peel_order(v)
+                    if isinstance(v, (ast.SetComp, ast.ListComp, ast.GeneratorExp)) and len(v.generators) == 1 and isinstance(v.generators[0].target, ast.Name) and \
+                            common.is_name(v.elt, v.generators[0].target.id):
+                        v = peel_order(v.generators[0].iter)      # {line for line in f.read().splitlines() if line}
                     if isinstance(v, ast.Call) and isinstance(v.func, ast.Attribute) and v.func.attr == "splitlines" and not v.args and \
                             isinstance(v.func.value, ast.Call) and isinstance(v.func.value.func, ast.Attribute) and v.func.value.func.attr == "read":
                         KWV = n.targets[0].id
@@ -290,6 +293,14 @@ def check(run):
             if common.is_name(a, DIR) and isinstance(b, ast.Call) and prog.dotted(rm, b.func) == "os.path.join" and len(b.args) == 2 and \
                     prog.try_fold(rm, b.args[1]) == "keywords" and "multidecoder.__path__" in norm_src(b.args[0]):
                 dflt_ok = True
+    for n in gk.node.body:
+        if isinstance(n, ast.If) and not n.orelse and len(n.body) == 1 and isinstance(n.body[0], ast.Assign) and common.is_name(n.body[0].targets[0], DIR):
+            t_ = n.test
+            neg = (isinstance(t_, ast.UnaryOp) and isinstance(t_.op, ast.Not) and common.is_name(t_.operand, DIR)) or norm_src(t_) in (f"{DIR} == ''", f"len({DIR}) == 0")
+            b = n.body[0].value
+            if neg and isinstance(b, ast.Call) and prog.dotted(rm, b.func) == "os.path.join" and len(b.args) == 2 and \
+                    prog.try_fold(rm, b.args[1]) == "keywords" and "multidecoder.__path__" in norm_src(b.args[0]):
+                dflt_ok = True
     run.ob("R4-keyword-walk", "registry.get_keywords/default-directory", dflt_ok, w(gk.node), "without a directory the shipped <package>/keywords is used; a given directory replaces it",
            "default keyword directory expression not recognised", mech="expression-shape match")
     run.floor("R4-keyword-walk", 8)
@@ -324,7 +335,8 @@ def check(run):
             v = st.targets[0].id
             ext = [n for n in own_nodes(br.node) if isinstance(n, ast.Call) and isinstance(n.func, ast.Attribute) and n.func.attr == "extend" and
                    common.is_name(n.func.value, v) and n.args and n.args[0] is calls["ga"][0]]
-            comb_ok = len(ext) == 1 and common.is_name(rets[0].value, v)
+            aug = [n for n in own_nodes(br.node) if isinstance(n, ast.AugAssign) and isinstance(n.op, ast.Add) and common.is_name(n.target, v) and n.value is calls["ga"][0]]
+            comb_ok = (len(ext) == 1 or len(aug) == 1) and common.is_name(rets[0].value, v)
         elif isinstance(rets[0].value, ast.BinOp) and isinstance(rets[0].value.op, ast.Add):
             comb_ok = rets[0].value.left is calls["gk"][0] and rets[0].value.right is calls["ga"][0]
     run.ob("R5-config", "registry.build_registry/keywords-then-decoders", comb_ok, w(br.node), "the registry is the keyword searchers followed by the decoders",
